@@ -356,7 +356,6 @@ func Reorder(m Value, perm []int) Value {
 	return out
 }
 
-
 // HasSkew reports whether v (a value of the sender's schema `from`) carries a message
 // field that the reader's schema `to` does not know or has marked deprecated.
 func HasSkew(from, to *schema.Schema, t schema.Type, v Value) bool {
